@@ -896,6 +896,21 @@ func (env *SpecEnv) callExpr(c *ast.CallExpr) (*Val, error) {
 			return boolVal(sx(">", sx("sarr", a.T), env.vc().heap(env.old, "$alloc", SInt))), nil
 		}
 		return boolVal(sx(">", a.T, env.vc().heap(env.old, "$alloc", SInt))), nil
+	case "unixnano":
+		// the Unix nanosecond count of a time.Time value (the only thing time values are modelled by)
+		a, err := arg(0)
+		if err != nil {
+			return nil, err
+		}
+		if a.Addr && a.Typ != nil && isStruct(a.Typ) {
+			// a struct-valued field of a heap object is denoted by its address: read the value
+			saved := env.fr.st
+			env.fr.st = env.cur
+			a = env.fr.loadStruct(a.T, a.Typ)
+			env.fr.st = saved
+		}
+		U.declFun("time.unixnano", fmt.Sprintf("(declare-fun time.unixnano (%s) Int)", a.S))
+		return mathInt(sx("time.unixnano", a.T)), nil
 	case "arrayof":
 		// identity of the backing array of a slice (two slices alias iff they have the same array id)
 		a, err := arg(0)
